@@ -93,8 +93,8 @@
 //     are, in traced functions, opaque calls like any other (a parameter for
 //     the result and a trace entry with the format string) — the behaviour the
 //     ties of C08 (and others written before the texts became fixed) rely on;
-//     call or such a write; a field of abstract type of a translated structure
-//     and an element of an abstract slice are read in the same way;
+//   - a field of abstract type of a translated structure and an element of
+//     an abstract slice are read like values of abstract objects (above);
 //   - the spec file may declare such a type *symbolic* (object form of the
 //     option, `true` being the token mode above; "symbolic":
 //     {"net/netip.Addr": "String", "…/filter.Result": "(Option String)"}): its
@@ -108,6 +108,22 @@
 //     files with the object form of "symbolic" evaluate the given fields in the
 //     order of the literal and refuse calls in dropped fields, the others
 //     evaluate in the order of the structure's fields;
+//   - with "drop_abstract" (the treatment TrC19 was written against, instead
+//     of AbsPtr / Unit values, see below), `v := <ident or selector>` /
+//     `v := f(…)` for a `v` of abstract type
+//     (`hdr := r.Header`, `ctx := r.Context()`) drops the binding; the call is
+//     still an effect: dropped when listed under "ignore"/"pure", recorded in
+//     the trace when "trace" is set, a translation error otherwise;
+//   - with "trace_nested", scalar-valued calls among the arguments of a traced
+//     call statement (`h.Set(k, in.Get(k))`) are evaluated first, left to
+//     right, with their own trace entries, and their values are the argument
+//     values of the outer entry (otherwise such an argument is shown as "_");
+//   - with "trace" and "drop_abstract", an assignment to a field of an
+//     abstract value (`r.Out.Host = v`) is the trace entry ("Host=", [v])
+//     (otherwise ("set r.Out.Host", [v]), see below);
+//   - "func": "Outer#name" selects the function literal bound by
+//     `name := func(…) {…}` inside Outer; captured variables of translatable
+//     type become leading parameters, abstract ones are treated as above;
 //   - []error literals, append on them and errors.Join are lists of optional
 //     texts and "first non-nil" (errors.Join is non-nil iff an element is);
 //   - opaque calls and reads from abstract objects are not allowed inside
@@ -198,6 +214,14 @@ type TrFunc struct {
 	// TraceRepr renders trace arguments of non-scalar translatable type
 	// (structures, options, lists) with `reprStr` instead of "_".
 	TraceRepr bool `json:"trace_repr,omitempty"`
+	// TraceNested: scalar-valued calls among the arguments of a traced call
+	// statement are evaluated (and traced) first; their values appear in the
+	// outer trace entry instead of "_".
+	TraceNested bool `json:"trace_nested,omitempty"`
+	// DropAbstract: locals of abstract type are not modelled as AbsPtr / Unit
+	// values; `v := x.f` / `v := f(…)` drops the binding (the call stays an
+	// effect) and `x.f = v` on an abstract x is the entry ("f=", [v]).
+	DropAbstract bool `json:"drop_abstract,omitempty"`
 }
 
 type trSpecFile struct {
@@ -1669,6 +1693,35 @@ func (c *fctx) forget() {
 	}
 }
 
+// nestedTrace ("trace_nested") translates a traced call statement whose
+// arguments are themselves calls of scalar type: those are evaluated first,
+// left to right (opaque ones get their own trace entries and parameters), and
+// their values are the argument values of the outer entry.
+func (c *fctx) nestedTrace(call *ast.CallExpr, rest []ast.Stmt) string {
+	var xs []ex
+	at := map[int]int{}
+	for i, a := range call.Args {
+		ac, ok := ast.Unparen(a).(*ast.CallExpr)
+		if lt := c.t.leanType(c.typeOf(a)); ok && (lt == "String" || lt == "Int" || lt == "Bool") {
+			at[i] = len(xs)
+			xs = append(xs, c.expr(ac))
+		}
+	}
+	return c.withExs(xs, func(codes []string) string {
+		var args []string
+		for i, a := range call.Args {
+			if k, ok := at[i]; !ok {
+				args = append(args, c.traceArg(a))
+			} else if c.t.leanType(c.typeOf(a)) == "String" {
+				args = append(args, codes[k])
+			} else {
+				args = append(args, "(toString "+codes[k]+")")
+			}
+		}
+		return fmt.Sprintf("let tr := tr ++ [(%q, [%s])]\n", lastName(c.show(call.Fun)), strings.Join(args, ", ")) + c.stmts(rest)
+	})
+}
+
 func lastName(s string) string {
 	if i := strings.Index(s, "["); i > 0 && strings.HasSuffix(s, "]") && !strings.Contains(s[i:], ".") || i > 0 && strings.HasSuffix(s, "]") && strings.HasPrefix(s[i:], "[*") {
 		s = s[:i] // generic instantiation f[T]
@@ -2104,6 +2157,9 @@ func (c *fctx) stmts(list []ast.Stmt) string {
 		if !c.trace {
 			fail("call statement %s (not ignored, no trace)", c.show(x))
 		}
+		if c.spec.TraceNested {
+			return c.nestedTrace(call, rest)
+		}
 		return "let tr := tr ++ [" + c.traceEntry(call) + "]\n" + c.stmts(rest)
 	case *ast.DeferStmt:
 		if c.matches(c.spec.Ignore, x.Call) {
@@ -2309,7 +2365,7 @@ func (c *fctx) desugarSwitch(x *ast.SwitchStmt) []ast.Stmt {
 }
 
 func (c *fctx) assignStmt(x *ast.AssignStmt, rest []ast.Stmt) string {
-	if len(x.Lhs) == 1 && len(x.Rhs) == 1 && c.abstractTarget(x.Lhs[0]) {
+	if len(x.Lhs) == 1 && len(x.Rhs) == 1 && !c.spec.DropAbstract && c.abstractTarget(x.Lhs[0]) {
 		op := ""
 		if x.Tok != token.ASSIGN {
 			op = " " + x.Tok.String()
@@ -2350,6 +2406,26 @@ func (c *fctx) assignStmt(x *ast.AssignStmt, rest []ast.Stmt) string {
 		be := &ast.BinaryExpr{X: x.Lhs[0], Op: op, Y: x.Rhs[0]}
 		c.p.info.Types[be] = types.TypeAndValue{Type: c.typeOf(x.Lhs[0])}
 		return c.assign(x.Lhs[0], c.expr(be), rest, nil)
+	}
+	if len(x.Lhs) == 1 && len(x.Rhs) == 1 && c.spec.DropAbstract {
+		// "drop_abstract": the binding of a variable of abstract type is dropped; a call on the
+		// right-hand side remains an effect (ignored, pure or traced)
+		if id, ok := x.Lhs[0].(*ast.Ident); ok && id.Name != "_" {
+			if lt := c.lhsType(id); lt != nil && c.t.leanType(lt) == "" {
+				switch r := ast.Unparen(x.Rhs[0]).(type) {
+				case *ast.Ident, *ast.SelectorExpr:
+					return c.stmts(rest)
+				case *ast.CallExpr:
+					if c.matches(c.spec.Ignore, r) || c.matches(c.spec.Pure, r) {
+						return c.stmts(rest)
+					}
+					if c.trace {
+						return "let tr := tr ++ [" + c.traceEntry(r) + "]\n" + c.stmts(rest)
+					}
+				}
+				fail("assignment %s to a variable of abstract type", c.show(x))
+			}
+		}
 	}
 	if len(x.Lhs) == len(x.Rhs) {
 		if len(x.Lhs) == 1 {
@@ -2493,6 +2569,17 @@ func (c *fctx) assignCode(lhs ast.Expr, code string, k func() string) string {
 		}
 		return fmt.Sprintf("let %s := %s\n", leanIdent(l.Name), code) + k()
 	case *ast.SelectorExpr:
+		if c.trace && c.spec.DropAbstract && c.t.leanType(c.typeOf(l.X)) == "" {
+			// "drop_abstract": field of an abstract value (`r.Out.Host = …`): an effect in the trace
+			switch c.t.leanType(c.typeOf(l)) {
+			case "String":
+			case "Int", "Bool":
+				code = "(toString " + code + ")"
+			default:
+				code = "\"_\""
+			}
+			return fmt.Sprintf("let tr := tr ++ [(%q, [%s])]\n", l.Sel.Name+"=", code) + k()
+		}
 		base, ok := l.X.(*ast.Ident)
 		if !ok {
 			fail("nested field assignment %s", c.show(lhs))
@@ -2570,15 +2657,50 @@ func (t *translator) translate(sp TrFunc) (fo *funcOut) {
 	if err != nil {
 		fail("load %s: %v", path, err)
 	}
-	fd := t.findDecl(p, sp.Func)
+	outer, litName, isLit := strings.Cut(sp.Func, "#")
+	fd := t.findDecl(p, outer)
 	if fd == nil {
 		fail("function %s not found in %s", sp.Func, sp.Pkg)
+	}
+	var litSig *types.Signature
+	if isLit {
+		// "Outer#name": the function literal bound by `name := func(…) {…}` in Outer
+		ast.Inspect(fd.Body, func(n ast.Node) bool {
+			if as, ok := n.(*ast.AssignStmt); ok && litSig == nil && len(as.Lhs) == 1 && len(as.Rhs) == 1 {
+				id, _ := as.Lhs[0].(*ast.Ident)
+				if fl, ok := as.Rhs[0].(*ast.FuncLit); ok && id != nil && id.Name == litName {
+					litSig, _ = p.info.Types[fl].Type.(*types.Signature)
+					fd = &ast.FuncDecl{Name: fd.Name, Type: fl.Type, Body: fl.Body}
+				}
+			}
+			return litSig == nil
+		})
+		if litSig == nil {
+			fail("function literal %s not found in %s", sp.Func, sp.Pkg)
+		}
 	}
 	c := &fctx{t: t, p: p, spec: sp, fd: fd, trace: sp.Trace}
 	fo.doc = fmt.Sprintf("%s: %s", p.fset.Position(fd.Pos()).Filename[strings.Index(p.fset.Position(fd.Pos()).Filename, "/internal/")+1:], sp.Func)
 	obj := p.info.Defs[fd.Name].(*types.Func)
 	sig := obj.Type().(*types.Signature)
 	var params []string
+	if litSig != nil {
+		sig = litSig
+		// captured variables of translatable type are leading parameters
+		seen := map[types.Object]bool{}
+		ast.Inspect(fd.Body, func(n ast.Node) bool {
+			id, _ := n.(*ast.Ident)
+			if id == nil {
+				return true
+			}
+			v, ok := p.info.Uses[id].(*types.Var)
+			if ok && !v.IsField() && !seen[v] && v.Parent() != p.pkg.Scope() && (v.Pos() < fd.Pos() || v.Pos() > fd.End()) && t.leanType(v.Type()) != "" {
+				seen[v] = true
+				params = append(params, fmt.Sprintf("(%s : %s)", leanIdent(v.Name()), t.leanType(v.Type())))
+			}
+			return true
+		})
+	}
 	if sig.Recv() != nil {
 		c.recv = sig.Recv().Name()
 		rty := sig.Recv().Type()
